@@ -6,6 +6,7 @@ import (
 	"os"
 	"path/filepath"
 	"sort"
+	"strconv"
 	"strings"
 	"testing"
 
@@ -152,6 +153,127 @@ func compare(what string, c Case, got poly.Sequence) error {
 	return nil
 }
 
+// readGFF is the harness's own GFF3 reader for what Build writes: the file as any other GFF3 tool would see it -
+// directives, nine tab-separated columns with 1-based inclusive coordinates, key=value attributes separated by ';',
+// a ##FASTA section whose lines are joined whatever their width.
+func readGFF(text []byte) (name string, regionStart, regionEnd int, feats []Feat, seq string, err error) {
+	lines := strings.Split(strings.TrimSuffix(string(text), "\n"), "\n")
+	i, sawRegion := 0, false
+	for ; i < len(lines); i++ {
+		l := lines[i]
+		switch {
+		case l == "##FASTA":
+		case strings.HasPrefix(l, "##sequence-region"):
+			f := strings.Fields(l)
+			if len(f) != 4 {
+				return "", 0, 0, nil, "", fmt.Errorf("line %d: %q is not a sequence-region directive with a name and two bounds", i+1, l)
+			}
+			name = f[1]
+			if regionStart, err = strconv.Atoi(f[2]); err != nil {
+				return "", 0, 0, nil, "", fmt.Errorf("line %d: region start %q", i+1, f[2])
+			}
+			if regionEnd, err = strconv.Atoi(f[3]); err != nil {
+				return "", 0, 0, nil, "", fmt.Errorf("line %d: region end %q", i+1, f[3])
+			}
+			sawRegion = true
+			continue
+		case strings.HasPrefix(l, "#") || l == "":
+			continue
+		default:
+			col := strings.Split(l, "\t")
+			if len(col) != 9 {
+				return "", 0, 0, nil, "", fmt.Errorf("line %d: %d tab-separated columns, a feature line has 9: %q", i+1, len(col), l)
+			}
+			ft := Feat{Seqid: col[0], Source: col[1], Type: col[2], Score: col[5], Strand: col[6], Phase: col[7], Attrs: map[string]string{}}
+			if ft.Start, err = strconv.Atoi(col[3]); err != nil {
+				return "", 0, 0, nil, "", fmt.Errorf("line %d: start column %q", i+1, col[3])
+			}
+			if ft.End, err = strconv.Atoi(col[4]); err != nil {
+				return "", 0, 0, nil, "", fmt.Errorf("line %d: end column %q", i+1, col[4])
+			}
+			if col[8] != "" {
+				for _, kv := range strings.Split(col[8], ";") {
+					k, v, ok := strings.Cut(kv, "=")
+					if !ok {
+						return "", 0, 0, nil, "", fmt.Errorf("line %d: attribute %q has no '='", i+1, kv)
+					}
+					if _, dup := ft.Attrs[k]; dup {
+						return "", 0, 0, nil, "", fmt.Errorf("line %d: attribute %q occurs twice", i+1, k)
+					}
+					ft.Attrs[k] = v
+				}
+			}
+			feats = append(feats, ft)
+			continue
+		}
+		break
+	}
+	if !sawRegion {
+		return "", 0, 0, nil, "", fmt.Errorf("no ##sequence-region directive")
+	}
+	if i >= len(lines) {
+		return "", 0, 0, nil, "", fmt.Errorf("no ##FASTA section")
+	}
+	i++
+	if i >= len(lines) || !strings.HasPrefix(lines[i], ">") {
+		return "", 0, 0, nil, "", fmt.Errorf("the ##FASTA section does not start with a '>' line")
+	}
+	if id := strings.Fields(lines[i][1:] + " x")[0]; id != name && lines[i][1:] != name {
+		return "", 0, 0, nil, "", fmt.Errorf("the FASTA record is named %q, the region %q", lines[i][1:], name)
+	}
+	var b strings.Builder
+	for i++; i < len(lines); i++ {
+		if strings.HasPrefix(lines[i], ">") {
+			return "", 0, 0, nil, "", fmt.Errorf("a second FASTA record at line %d", i+1)
+		}
+		b.WriteString(strings.TrimRight(lines[i], "\r"))
+	}
+	return name, regionStart, regionEnd, feats, b.String(), nil
+}
+
+// compareFile judges Build's text as read by readGFF against the case: the absolute meaning of the file.
+func compareFile(c Case, text []byte) error {
+	name, rs, re, feats, seq, err := readGFF(text)
+	if err != nil {
+		return vk.Errf("Build(x) read by the harness's own GFF3 reader: %v --- text --- %s", err, clipText(text))
+	}
+	if name != c.Name || rs != c.RegionStart || re != c.regionEnd() {
+		return vk.Errf("Build(x) read by the harness's own GFF3 reader: region %q %d..%d, given %q %d..%d", name, rs, re, c.Name, c.RegionStart, c.regionEnd())
+	}
+	if seq != c.Seq.String() {
+		return vk.Errf("Build(x) read by the harness's own GFF3 reader: the FASTA section holds %d letters, given %d", len(seq), len(c.Seq.String()))
+	}
+	key := func(f Feat) string {
+		ks := make([]string, 0, len(f.Attrs))
+		for k, v := range f.Attrs {
+			ks = append(ks, fmt.Sprintf("%q=%q", k, v))
+		}
+		sort.Strings(ks)
+		return fmt.Sprintf("%q %q %q %d..%d %q %q %q %s", f.Seqid, f.Source, f.Type, f.Start, f.End, f.Score, f.Strand, f.Phase, strings.Join(ks, ";"))
+	}
+	want := map[string]int{}
+	for _, f := range c.Features {
+		want[key(f)]++
+	}
+	if len(feats) != len(c.Features) {
+		return vk.Errf("Build(x) read by the harness's own GFF3 reader: %d feature lines, %d features given", len(feats), len(c.Features))
+	}
+	for _, f := range feats {
+		if want[key(f)] == 0 {
+			return vk.Errf("Build(x) read by the harness's own GFF3 reader: the feature line {%s} (columns with 1-based inclusive coordinates, attributes) matches no feature given", key(f))
+		}
+		want[key(f)]--
+	}
+	return nil
+}
+
+func clipText(b []byte) string {
+	if len(b) > 600 {
+		return string(b[:600]) + "…"
+	}
+	return string(b)
+}
+
 func check(c Case) error {
 	if c.Kind == "independent" {
 		text := write(c)
@@ -179,6 +301,10 @@ func check(c Case) error {
 	_, _ = gff.Build(other), gff.Build(other)
 	if string(text) != snapshot {
 		return vk.Errf("the bytes returned by Build(x) changed when another sequence was built afterwards: %q, was %q", string(text), snapshot)
+	}
+	// the file as another GFF3 tool reads it: 1-based inclusive coordinates, the columns and attributes, the sequence
+	if err := compareFile(c, text); err != nil {
+		return err
 	}
 	buf := append([]byte{}, text...) // a buffer of the parser's own, overwritten once it has returned
 	parsed := gff.Parse(buf)
